@@ -269,6 +269,12 @@ var _ = pr.AutoF
 //@   requires context != nil && box_ != nil
 //@   modifies anything
 //@   ensures[min-content] table.Width.V() >= tmp.tableMinContentWidth
+// the four guesses are working copies: the preferred widths come from the per-context cache and are
+// read again by every later layout of the same table, so the guesses must not share their storage
+//@   assert after minContentGuess#1: fresh(minContentGuess)
+//@   assert after minContentPercentageGuess#1: fresh(minContentPercentageGuess)
+//@   assert after minContentSpecifiedGuess#1: fresh(minContentSpecifiedGuess)
+//@   assert after maxContentGuess#1: fresh(maxContentGuess)
 //@   loop 1 invariant table.Width.V() >= tmp.tableMinContentWidth
 //@   loop 2 invariant table.Width.V() >= tmp.tableMinContentWidth
 //@   loop 3 invariant table.Width.V() >= tmp.tableMinContentWidth
